@@ -104,8 +104,8 @@ CLAIMED = {
     "C13": ("Lean 4 proof: frame property of neighbors()/find_links for every fault index (world unchanged but the memo, memo stays correct, repeat gives the normal answer); snapshot oracle + exhaustive per-call fault sweep on the real code",
             "Theorems C13_neighbors_frame (for EVERY invocation index at which the filter raises: graph unchanged, no incorrect memo left, other memos untouched), C13_repeat_ok, C13_step_readonly, "
             "C13_queries_invisible; for traversals and searches (modelled with their memo traffic, EG.TravState): C13_traversal_readonly, C13_search_readonly, C13_queries_invisible_x "
-            "(any sequence of neighbors / find_links / traversal / search calls on a reachable world leaves the graph part of the world as it was and every memo correct). Renderers and pickling "
-            "are functions from the world in the model because the code contains no store; for them, and for faults inside traversal callbacks, the property is established on the real code: "
+            "(any sequence of neighbors / find_links / traversal / search calls on a reachable world leaves the graph part of the world as it was and every memo correct), C13_render_readonly (basic_render). "
+            "The PlantUML / PyVis renderers and pickling are functions from the world in the model because the code contains no store; for them, and for faults inside traversal callbacks, the property is established on the real code: "
             "vars() of every object (attribute-name sets, values, container contents) is snapshotted around every read-only call of every script, and a fault is swept over every invocation index of every "
             "callback (filterfunc, ff_via, ff_result, rfunc, sort, rvfunc, refunc, user_render_func), each followed by an unfaulted repeat that must give the baseline answer.",
             "PARTIAL for renderers / pickling (entry points without stores): frame by construction of the model + exhaustive fault sweep per call, not a theorem about the Python.", "DESIGN.md 3/C13"),
@@ -123,7 +123,7 @@ CLAIMED = {
             "correspondence on every call; an oracle checks the statement on the real network and that no vertex attribute set changes.",
             "pyvis itself is in the trusted base.", "DESIGN.md 3/C15"),
     "C16": ("Lean 4 proof: exact string of basic_render (lines, order, stable sort, isolated vertex, propagation); exact-string correspondence",
-            "Theorems C16_lines, C16_lines_sorted, C16_sortBy_spec (stable sort: permutation ordered by the key), C16_isolated, C16_empty, C16_propagates. The rendered string is compared character by "
+            "Theorems C05_render_transparent / C13_render_readonly (basic_render modelled WITH the neighbors() calls it makes through the memo: it returns the string of the memo-free description, leaves the graph and every memo correct), C16_lines, C16_lines_sorted, C16_sortBy_spec (stable sort: permutation ordered by the key), C16_isolated, C16_empty, C16_propagates. The rendered string is compared character by "
             "character with the model (token renderings, repr with addresses substituted), with and without rfunc/sort; the oracle recomputes every line from neighbors().",
             "sorted() stability of CPython is trusted.", "DESIGN.md 3/C16"),
     "C17": ("Lean 4 proof: state machine of the semi-singleton maps: live key returns same instance without __init__, new key new instance of the called class, reports exact, isolation between classes sharing a metaclass; exhaustive depth-2/3 + random correspondence",
